@@ -126,7 +126,8 @@ def is_valid_ipv6(address):
     parts = address.rsplit("%", 1)
     address = parts[0]
     scope = parts[1] if len(parts) > 1 else None
-    if scope is not None and (len(scope) < 1 or len(scope) > 15):
+    if scope is not None and (len(scope) < 1 or len(scope) > 15 or
+                              '/' in scope):
         return False
 
     try:
